@@ -6,6 +6,9 @@ import os
 import sqlite3
 
 FMT = '%Y-%m-%d %H:%M:%S'
+_CLI_CALLS = [0]
+RELATIVE_CALLS = [0]  # commands run with relative file names from the data directory
+REPO_PREFIXES = (os.environ.get('SPOWTD_REPO', '/repo'),)
 EPOCH0 = datetime.datetime(1970, 1, 1)
 
 
@@ -85,14 +88,30 @@ def cli(argv, stdout=None):
 
     out = stdout if stdout is not None else io.StringIO()
     err = io.StringIO()
+    argv = [str(a) for a in argv]
+    # every third command is typed the way a user in the data directory would: relative file
+    # names, with that directory as the current one
+    _CLI_CALLS[0] += 1
+    cwd = None
+    absolute = [a for a in argv if a.startswith('/') and os.path.isdir(os.path.dirname(a))]
+    if _CLI_CALLS[0] % 3 == 0 and absolute:
+        base = os.path.dirname(absolute[0])
+        if not base.startswith(REPO_PREFIXES):
+            cwd = os.getcwd()
+            argv = [os.path.relpath(a, base) if a.startswith(base + '/') else a for a in argv]
+            os.chdir(base)
+            RELATIVE_CALLS[0] += 1
     try:
         with contextlib.redirect_stdout(out), contextlib.redirect_stderr(err):
-            status = ui.main([str(a) for a in argv])
+            status = ui.main(argv)
         return status, None
     except SystemExit as exc:
         return (exc.code if exc.code is not None else 0), None
     except Exception as exc:  # pylint: disable=broad-except
         return 1, exc
+    finally:
+        if cwd is not None:
+            os.chdir(cwd)
 
 
 def copy_db(source, path=':memory:'):
